@@ -304,21 +304,6 @@ def selection_arg(rng, sel):
 
 
 # ----------------------------------------------------------------------------- run
-def pre_build(ctx):
-    # re-translate filter_graph_with_ancestors (Gen/SubsetUtils_gen.v, tied by Proofs/SubsetTie.v)
-    import translate_utils
-
-    ok, msg = translate_utils.regenerate()
-    if not ok:
-        raise RuntimeError("translator refused _utils.py: %s" % msg)
-    # re-translate the export side (Gen/ExportPipeline_gen.v, tied by Proofs/ExportTie.v)
-    import translate_export
-
-    ok, msg = translate_export.regenerate()
-    if not ok:
-        raise RuntimeError("translator refused the export sources: %s" % msg)
-
-
 def run(ctx):
     from funtracks.import_export._utils import filter_graph_with_ancestors
 
